@@ -580,6 +580,7 @@ pub fn replay(opts: &Opts) -> i32 {
   };
   let mut p: Vec<KeyCode> = vec![];
   let mut vset: Vec<KeyCode> = vec![];
+  let mut obls: Vec<Obl> = vec![];
   let mut bad = 0;
   for (i, tok) in history.iter().enumerate() {
     let before = mapper.verif_snapshot();
@@ -603,7 +604,19 @@ pub fn replay(opts: &Opts) -> i32 {
     let after_s = fmt::state(&layout, &mapper.verif_snapshot());
     let out = format!("{} {} {}", fmt::events(&res.events), fmt::rrepeat(&res.repeat), after_s);
     let model = lean.ask(&format!("S {} {}", before_s, tok));
-    let mon = lean.ask(&format!("M {} {} {} {} {}", fmt::keys(&p), fmt::keys(&vset), before_s, tok, out));
+    let mut mon = lean.ask(&format!("M {} {} {} {} {}", fmt::keys(&p), fmt::keys(&vset), before_s, tok, out));
+    {
+      let mut p2 = p.clone();
+      match &ev { Event::Pressed(k) => { if !p2.contains(k) { p2.push(*k); p2.sort(); } }, Event::Released(k) => { p2.retain(|x| x != k); } }
+      let after = mapper.verif_snapshot();
+      let obls2 = next_obls(&layout, &obls, &before, &after, &ev, &p2);
+      if !obls.is_empty() || !obls2.is_empty() {
+        let r8 = lean.ask(&format!("M8 {} {} {} {} {} {}", fmt::keys(&p), fmt::keys(&vset), before_s, tok, out, obls_text(&obls)));
+        let verdict = r8.split(' ').next().unwrap_or("").to_string();
+        if verdict != "ok" { mon = if mon == "ok" { verdict } else { format!("{},{}", mon, verdict.trim_start_matches("viol:")) }; }
+      }
+      obls = obls2;
+    }
     println!("step {} {}: impl emits [{}] repeat {}; model {}; monitors {}", i, fmt::events_human(&[ev.clone()]), fmt::events_human(&res.events), fmt::rrepeat(&res.repeat), if model == out { "agrees".to_string() } else { format!("DISAGREES ({})", model) }, mon);
     if model != out || mon != "ok" { bad += 1; }
     match &ev {
